@@ -55,6 +55,8 @@ func (o *headObserver) OnUpdate(e headstorage.HeadsEntry) {
 	o.mu.Unlock()
 }
 
+func (h *dbHandle) close() { _ = h.db.DB.Close() }
+
 func openDB(dir, name string) (*dbHandle, error) {
 	raw, err := anystore.Open(ctx, filepath.Join(dir, name+".db"), nil)
 	if err != nil {
@@ -114,6 +116,7 @@ type rstore struct {
 	svc       kvinterfaces.KeyValueService
 	st        keyvaluestorage.Storage
 	storageId string
+	spaceId   string
 	sync      *syncSvc
 	server    *rpctest.TestServer
 	gate      *gateServer
@@ -128,7 +131,7 @@ func newStore(w *world, h *dbHandle, spaceId, name, acc, dev string, knows int) 
 	if err != nil {
 		return nil, err
 	}
-	s := &rstore{name: name, w: w, h: h, acc: acc, dev: dev, knows: knows, sync: &syncSvc{}}
+	s := &rstore{name: name, w: w, h: h, acc: acc, dev: dev, knows: knows, sync: &syncSvc{}, spaceId: spaceId}
 	a := new(app.App)
 	a.Register(&spacestate.SpaceState{SpaceId: spaceId})
 	a.Register(accSvc{keys})
@@ -387,6 +390,7 @@ type donePeer struct {
 func (p *donePeer) ReleaseDrpcConn(ctx context.Context, conn drpc.Conn) {
 	p.Peer.ReleaseDrpcConn(ctx, conn)
 	close(p.ex.done)
+	go func() { _ = p.Peer.Close() }() // one connection pair per exchange: do not let them pile up
 }
 
 // startExchange lets store c (client) sync with store srv. stepped=false: runs to completion.
